@@ -18,6 +18,7 @@ type Scenario struct {
 	Delay    bool           `json:"delay_initial_verification,omitempty"`
 	Suppress bool           `json:"suppress_global_callbacks,omitempty"`
 	NoVerify bool           `json:"no_verify_method,omitempty"`
+	NoGlobalCB bool         `json:"no_global_callbacks,omitempty"` // Params.OnNewConfig / OnWatchedError left nil
 	Defaults Part           `json:"defaults"`
 	Sources  []SourceSpec   `json:"sources"`
 	Clients  []ClientSpec   `json:"clients"`
@@ -224,6 +225,7 @@ func knobsFor(prop string, faulty bool) knobs {
 			k.pDeadline = 10
 		}
 	case "C04":
+		k.pSuppress = 30
 		k.readers = [2]int{1, 3}
 		k.registrars = [2]int{0, 2}
 		k.pInvalid = 40
@@ -359,6 +361,9 @@ func genCore(prop string, seed uint64, faulty bool) *Scenario {
 		sc.Sources = append(sc.Sources, s)
 	}
 
+	if prop == "C06" && g.pct(25) {
+		sc.NoGlobalCB = true
+	}
 	if g.pct(k.cbSlow) {
 		sc.GlobalCB = "slow"
 	} else if g.pct(k.cbBlock) {
